@@ -130,7 +130,9 @@ fn generate<CS: BbsCiphersuite>(inp: &Inputs<CS>, which: u8) -> Result<Gen, Stri
     let pk = inp.kp.public_key();
     let proof = PoKSignature::<BBSplus<CS>>::proof_gen(pk, &inp.sig, Some(&inp.header), Some(&inp.ph), Some(&inp.msgs), Some(&inp.disclosed_arg))
         .map_err(|e| format!("proof_gen {:?}", e))?;
-    let (com, bf) = Commitment::<BBSplus<CS>>::commit(Some(&inp.cm)).map_err(|e| format!("commit {:?}", e))?;
+    // no committed messages: the absent spelling in every second input set
+    let cm_arg: Option<&[Vec<u8>]> = if inp.cm.is_empty() && inp.key.ikm.seed % 2 == 0 { None } else { Some(&inp.cm) };
+    let (com, bf) = Commitment::<BBSplus<CS>>::commit(cm_arg).map_err(|e| format!("commit {:?}", e))?;
     let bsig = BlindSignature::<BBSplus<CS>>::blind_sign(inp.kp.private_key(), pk, Some(&com.to_bytes()), Some(&inp.header), Some(&inp.msgs))
         .map_err(|e| format!("blind_sign {:?}", e))?;
     let bproof = PoKSignature::<BBSplus<CS>>::blind_proof_gen(pk, &bsig.to_bytes(), Some(&inp.header), Some(&inp.ph), Some(&inp.msgs), Some(&inp.cm), Some(&inp.disclosed_arg), Some(&[]), Some(&bf))
